@@ -67,6 +67,18 @@ def cases():
     out.append((("LT", ("Plus", x, y), z), [(("Plus", x, y), ("Plus", x, y)), (x, three)]))
     out.append((("forall", [("z", INT)], ("LT", ("Plus", x, y), z)), [(("Plus", x, y), ("Plus", x, y)), (x, three)]))
     out.append((("And", a, b), [(a, a), (b, c)]))
+    # array values whose default / stored values are terms: every child is rewritten
+    ARR = ("ARRAY", INT, INT)
+    m_ = S("m", ARR)
+    two = ("lit", 2, INT)
+    av1 = ("Array", ("type", INT), zero, ("dict", (one, x), (two, ("Plus", x, y))))
+    av2 = ("Array", ("type", INT), y, ("dict", (three, x)))
+    out.append((("Equals", m_, av1), [(x, three)]))
+    out.append((("Equals", ("Select", av1, one), z), [(x, three), (y, z)]))
+    out.append((("Equals", m_, av2), [(x, one), (y, two)]))
+    out.append((("Equals", m_, av2), [(("Plus", x, y), z), (x, y)]))
+    out.append((("Equals", m_, av1), [(("Plus", x, y), z)]))
+    out.append((("exists", qx, ("Equals", m_, av2)), [(y, z), (x, z)]))
     return [(Shape(f), [(Shape(k), Shape(v)) for k, v in m]) for f, m in out]
 
 
@@ -77,6 +89,7 @@ def interp_cases():
     p, q = S("p", INT), S("q", INT)
     a = S("a")
     one = ("lit", 1, INT)
+    two_, three_ = ("lit", 2, INT), ("lit", 3, INT)
     F2 = ("f", INT, (INT, INT))
     G1 = ("g", INT, (INT,))
     P1 = ("pr", BOOL, (INT,))
@@ -98,6 +111,15 @@ def interp_cases():
         (("And", pr(f(x, x)), a), {P1: ([p], ("LT", p, one)), F2: ([q, p], ("Minus", p, q))}),
         (("LT", g(g(x)), y), {G1: ([p], ("Times", p, ("lit", 2, INT)))}),
         (("Equals", f(x, y), f(y, x)), {F2: ([p, q], p)}),                               # projection
+        # the formals are symbols of the same environment: actuals that mention a formal bound later (simultaneous binding)
+        (("Equals", f(y, x), z), {F2: ([x, y], ("Minus", x, y))}),
+        (("Equals", f(("Plus", y, one), ("lit", 7, INT)), z), {F2: ([x, y], ("Minus", x, y))}),
+        (("Equals", f(x, y), z), {F2: ([x, y], ("Minus", x, y))}),
+        (("Equals", f(y, y), f(x, x)), {F2: ([y, x], ("Minus", x, y))}),
+        (("Equals", ("fun", "h", INT, (INT, INT, INT), y, z, x), one),
+         {("h", INT, (INT, INT, INT)): ([x, y, z], ("Plus", x, ("Times", two_, y), ("Times", three_, z)))}),
+        # applications inside an array value
+        (("Equals", S("m", ("ARRAY", INT, INT)), ("Array", ("type", INT), ("lit", 0, INT), ("dict", (one, g(y))))), {G1: ([p], ("Plus", p, one))}),
     ]
     return [(Shape(fm), ip) for fm, ip in out]
 
